@@ -243,7 +243,9 @@ register('C02', 'translation_validation',
          "here, the full one in C03). A concrete probe (not solver-decided) checks that a float64 function keeps its "
          "value after a float32 model was compiled for the same backend. The KINDS of the module-level constants of the "
          "emitted Fortran module (invisible to a real-valued encoding) are decided by evaluating each initialiser under "
-         "both kind assignments (binary32 for default-real literals / binary64 throughout): they must agree to 4 ulp.",
+         "both kind assignments (binary32 for default-real literals / binary64 throughout): they must agree to 4 ulp; "
+         "every default-real literal in an executable statement of a double precision procedure must be a value that "
+         "binary32 holds exactly (decided on rationals).",
          "reals for floats: agreement 'to working precision' of the numerical libraries themselves (torch vs numpy exp) and "
          "float32 effects are not claimed; adaptive integrators outside; the Fortran function is replayed through a "
          "ctypes stand-in for the missing f2py/meson tool chain (same .f90 compiled with gfortran); GPU/Julia/Matlab "
